@@ -45,16 +45,18 @@ TrReg ==
               "K3 nodes-by-entity index differs from the primary records">>,
             <<\A n \in ns : n.ent \in ents, "K4 a registered node's entity is not registered">>,
             <<\A a \in DOMAIN R.claims :
-                 SeqSet(R.claims[a]) = (IF a \in ents THEN {"entity"} ELSE {}) \cup {"node:" \o n.id : n \in {x \in ns : x.ent = a}},
-              "K5 stake claims differ from those implied by the registered entities and nodes">>
+                 SeqSet(R.claims[a]) = (IF a \in ents THEN {"entity"} ELSE {}) \cup {"node:" \o n.id : n \in {x \in ns : x.ent = a}}
+                                        \cup {"runtime:" \o r.id : r \in {x \in SeqSet(R.runtimes) : x.claim_account = a}},
+              "K5 stake claims differ from those implied by the registered entities, nodes and runtimes">>,
+            <<\A r \in SeqSet(R.runtimes) : r.claim_account \in DOMAIN R.claims, "K5 a registered runtime's governing account holds no claim record">>
           >>)
     /\ nReg' = nReg + 1 /\ UNCHANGED nAuth
 
-RegistryKinds == {"regnode", "deregentity"}
+RegistryKinds == {"regnode", "deregentity", "regruntime"}
 TrTx ==
     /\ l <= Len(Trace) /\ Ev.ev = "tx" /\ l' = l + 1
     /\ LET sp == Ev.spec
-           unauth == sp.kind \in RegistryKinds /\ sp.validity \in {"wrongsigner", "missingsig", "hasnodes"}
+           unauth == sp.kind \in RegistryKinds /\ sp.validity \in {"wrongsigner", "missingsig", "hasnodes", "notowner", "dropruntime"}
        IN /\ SetBad(<< <<unauth => Ev.code # 0, "A1/K4 a registry transaction without the required authority succeeded">> >>)
           /\ nAuth' = nAuth + (IF unauth THEN 1 ELSE 0)
     /\ UNCHANGED nReg
